@@ -66,14 +66,14 @@ pub fn probe(opts: &Opts) -> i32 {
         Err(_) => "PANIC".to_string(),
         Ok(Err(e)) => {
             let kind = err_kind(&e);
+            let after = std::fs::read(&path).map(|d| fnv1a(&d)).unwrap_or(0);
             if kind == "invalid-metadata" && meta_valid {
                 // the metadata block is fine: the journal generation cannot advance
-                "err journal-exhausted".to_string()
+                format!("err journal-exhausted post={after:016x}")
             } else if kind == "invalid-metadata" || kind == "invalid-device" {
-                let after = std::fs::read(&path).map(|d| fnv1a(&d)).unwrap_or(0);
-                format!("err {kind} unchanged={}", (after == before_hash) as u8)
+                format!("err {kind} unchanged={} post={after:016x}", (after == before_hash) as u8)
             } else {
-                format!("err {kind}")
+                format!("err {kind} post={after:016x}")
             }
         }
         Ok(Ok(store)) if was_zero => {
@@ -350,7 +350,9 @@ pub fn probe_image(image: &str, scratch: &str, ttl: bool, allow: bool) -> (u64, 
 
 /// Property oracle on the implementation's own answer (C17 half): no panic, no hang.
 pub fn open_verdict(line: &str) -> String {
-    if line.contains("PANIC") {
+    if line.contains("unchanged=0") {
+        "FAIL rejected-for-size-or-metadata-but-file-modified".into()
+    } else if line.contains("PANIC") {
         "FAIL open-or-read-panicked".into()
     } else if line.contains("TIMEOUT") {
         "FAIL open-hung".into()
